@@ -195,6 +195,77 @@ theorem general_cols_eq {ι : Type} (l : List ι) (f0 f1 f2 y : ι → ℚ) :
   unfold general_fitting_cols
   simp only [dot_eq, pabs_eq, plt, ple, Bool.and_eq_true, decide_eq_true_eq, zero_lit, two_lit]
 
+/-- The positional arguments `x0, y0, x1, y1, …` of the n-argument form. -/
+def flat (pts : List (ℚ × ℚ)) : List FitArg := pts.flatMap (fun p => [.num p.1, .num p.2])
+
+theorem flat_cons (p : ℚ × ℚ) (t : List (ℚ × ℚ)) : flat (p :: t) = .num p.1 :: .num p.2 :: flat t := rfl
+
+theorem length_flat (pts : List (ℚ × ℚ)) : (flat pts).length = 2 * pts.length := by
+  induction pts with
+  | nil => rfl
+  | cons p t ih => rw [flat_cons]; simp only [List.length_cons, ih]; omega
+
+theorem all_isNum_flat (pts : List (ℚ × ℚ)) : (flat pts).all FitArg.isNum = true := by
+  induction pts with
+  | nil => rfl
+  | cons p t ih => rw [flat_cons]; simp only [List.all_cons, FitArg.isNum, ih, Bool.and_self]
+
+theorem evens_flat (pts : List (ℚ × ℚ)) : evens ((flat pts).map FitArg.val) = pts.map Prod.fst := by
+  induction pts with
+  | nil => rfl
+  | cons p t ih => rw [flat_cons]; simp only [List.map_cons, evens, FitArg.val, ih]
+
+theorem odds_flat (pts : List (ℚ × ℚ)) : odds ((flat pts).map FitArg.val) = pts.map Prod.snd := by
+  induction pts with
+  | nil => rfl
+  | cons p t ih => rw [flat_cons]; simp only [List.map_cons, odds, FitArg.val, ih]
+
+theorem finish_points (pts : List (ℚ × ℚ)) (hne : pts ≠ []) :
+    finish (pts.map Prod.fst) (pts.map Prod.snd) = fit_of pts := by
+  unfold finish
+  have : (pts.map Prod.fst).length > 0 := by
+    rw [List.length_map]; exact List.length_pos_iff.mpr hne
+  rw [if_pos this]; rfl
+
+/-- the default branch of `set` (four or more positional arguments) -/
+theorem set_many (a b c d : FitArg) (t : List FitArg) :
+    GenQ.CurveFitting.set (a :: b :: c :: d :: t) =
+      (let args := if (a :: b :: c :: d :: t).length % 2 != 0 then (a :: b :: c :: d :: t).dropLast else (a :: b :: c :: d :: t)
+       if !(args.all FitArg.isNum) then .error .typeError
+       else .ok (finish (evens (args.map FitArg.val)) (odds (args.map FitArg.val)))) := rfl
+
+/-- `CurveFitting(x0, y0, x1, y1, …)` with at least two points holds those points. -/
+theorem set_varargs (pts : List (ℚ × ℚ)) (h : 2 ≤ pts.length) :
+    GenQ.CurveFitting.set (flat pts) = .ok (fit_of pts) := by
+  match pts, h with
+  | p1 :: p2 :: t, _ =>
+    have hl : (flat (p1 :: p2 :: t)).length % 2 = 0 := by rw [length_flat]; omega
+    have e : flat (p1 :: p2 :: t) = .num p1.1 :: .num p1.2 :: .num p2.1 :: .num p2.2 :: flat t := rfl
+    rw [e, set_many, ← e]
+    simp only [hl, bne_self_eq_false, Bool.false_eq_true, if_false, all_isNum_flat, Bool.not_true,
+      evens_flat, odds_flat]
+    rw [finish_points _ (by simp)]
+
+/-- A trailing unpaired argument is dropped. -/
+theorem set_varargs_odd (pts : List (ℚ × ℚ)) (h : 2 ≤ pts.length) (z : ℚ) :
+    GenQ.CurveFitting.set (flat pts ++ [.num z]) = .ok (fit_of pts) := by
+  match pts, h with
+  | p1 :: p2 :: t, _ =>
+    have hl : (flat (p1 :: p2 :: t) ++ [FitArg.num z]).length % 2 = 1 := by
+      rw [List.length_append, length_flat]; simp only [List.length_cons, List.length_nil]; omega
+    have e : flat (p1 :: p2 :: t) ++ [FitArg.num z]
+        = .num p1.1 :: .num p1.2 :: .num p2.1 :: .num p2.2 :: (flat t ++ [FitArg.num z]) := rfl
+    rw [e, set_many, ← e]
+    simp only [hl, List.dropLast_concat, show ((1 : Nat) != 0) = true from rfl, if_true]
+    simp only [all_isNum_flat, Bool.not_true, evens_flat, odds_flat, Bool.false_eq_true, if_false]
+    rw [finish_points _ (by simp)]
+
+/-- Copy constructor: `CurveFitting(other)` holds the same points. -/
+theorem set_copy (pts : List (ℚ × ℚ)) (hne : pts ≠ []) :
+    GenQ.CurveFitting.set [.fit (fit_of pts)] = .ok (fit_of pts) := by
+  simp only [GenQ.CurveFitting.set]
+  rw [(fit_of_fields pts).1, (fit_of_fields pts).2.1, finish_points pts hne]
+
 theorem ne_zero_of_not_lt_TOL {d : ℚ} (h : ¬ |d| < TOL) : d ≠ 0 := by
   intro h0; apply h; rw [h0, abs_zero]; exact TOL_pos
 
